@@ -45,11 +45,11 @@ func VH_c17_pairs() {
 	cA := w.rA.FeatureByAddress(vhAddr("A", []uint{1}, 1))
 	cB := w.rB.FeatureByAddress(vhAddr("B", []uint{1}, 1))
 	bm.bindingEntries = append(bm.bindingEntries, &api.BindingEntry{Id: 1, ServerFeature: w.F1, ClientFeature: cA})
-	bm.bindingNum = 1
+	vhSetBindingNum(bm, 1)
 	sm.subscriptionEntries = append(sm.subscriptionEntries,
 		&api.SubscriptionEntry{Id: 1, ServerFeature: w.F1, ClientFeature: cA},
 		&api.SubscriptionEntry{Id: 2, ServerFeature: w.F1, ClientFeature: cB})
-	sm.subscriptionNum = 2
+	vhSetSubscriptionNum(sm, 2)
 	w.F1.SetData(fn, vhTwoLimits())
 	w.F4.SetData(fn, vhTwoLimits())
 	w.F1.SetWriteApprovalTimeout(time.Second)
